@@ -661,4 +661,40 @@ theorem conv_HS (g : Grammar) (o : Opts) (hd : drawsAll g o = true) :
           rw [hb] at p1 p2
           exact ⟨hHS2.trans p1, p2⟩
 
+/-! ### the final state -/
+
+def AllFilled (s : St) : Prop := ∀ nd ∈ s.heap, nd.kw.filled = true
+
+theorem AllFilled_HS {s s' : St} (h : AllFilled s) (h2 : HS s s') : AllFilled s' := by
+  intro nd hnd
+  obtain ⟨j, hj, rfl⟩ := List.mem_iff_getElem.mp hnd
+  by_cases hjs : j < s.heap.length
+  · obtain ⟨b, hb, hab⟩ := h2.2.1 j s.heap[j] (List.getElem?_eq_getElem hjs)
+    rw [List.getElem?_eq_getElem hj] at hb
+    simp only [Option.some.injEq] at hb
+    rw [hb]
+    exact KwLe_filled hab (h _ (List.getElem_mem hjs))
+  · exact h2.2.2 j _ (by omega) (List.getElem?_eq_getElem hj)
+
+theorem convertRoot_filled (g : Grammar) (o : Opts) (fuel root : Nat) (s : St)
+    (hd : drawsAll g o = true) (hroot : root < g.length)
+    (h : convertRoot g o fuel root = some s) : AllFilled s := by
+  unfold convertRoot at h
+  split at h
+  · exact absurd h (by simp)
+  · rename_i r s0 hc
+    obtain ⟨hHS, _⟩ := conv_HS g o hd fuel root none 0 none {} r s0 hroot hc
+    have h0 : AllFilled s0 := AllFilled_HS (fun nd hnd => absurd hnd (by simp)) hHS
+    split at h
+    · rename_i st hst
+      simp only [Option.some.injEq] at h
+      subst h
+      split
+      · exact AllFilled_HS h0 (HS.trans (b := { s0 with lookup := aset s0.lookup root { st with name := some "" } })
+          (HS_heap_eq rfl) (HS_mark g _ root none true))
+      · exact AllFilled_HS h0 (HS_mark g s0 root none true)
+    · simp only [Option.some.injEq] at h
+      subst h
+      exact h0
+
 end PP.Diagram
